@@ -18,6 +18,8 @@ def h(i, e, salt):
 
 
 def run(v, tier, seed, replay):
+    if replay:
+        return suvec.replay(v, replay, "plain")
     cfg = suvec.bfs_cfg("C09_shape", vecs=3, dims=(2, 3), exts=(1, 2), maxops=2, ops=ALL_OPS, next_op="SpecShape",
                         props=("WriteFrame", "ExternalStable", "FailureFrame"))
     r = vlib.tlc("SUVec", cfg, timeout=2400)
